@@ -10,7 +10,7 @@ import (
 )
 
 // two cleanups of one invocation: one falsifies, the other one skips or is rejected
-var c02TwoCleanups = []Beh{BCleanupSkipCleanupPanic, BCleanupSkipCleanupFatal, BCleanupRejectCleanupPanic, BCleanupPanicCleanupSkip}
+var c02TwoCleanups = []Beh{BCleanupSkipCleanupPanic, BCleanupSkipCleanupFatal, BCleanupRejectCleanupPanic, BCleanupPanicCleanupSkip, BCleanupErrorfCleanupSkip}
 
 func c02Alphabet(ctx string) []Beh {
 	switch ctx {
